@@ -198,6 +198,55 @@ func runC16(c *Ctx) error {
 		c.Count("registry-history")
 	}
 
+	// ---------- two links to one peer registered at the same moment (both ends dialled) ----------
+	{
+		w := newRWorld()
+		R, err := w.addNode("R", relayStore, nil)
+		if err != nil {
+			return err
+		}
+		rounds := c.Pick(1500, 20000)
+		for r := 0; r < rounds; r++ {
+			p := addrFrom(0xfd20_0000_0000_0000|uint64(r+1)<<8, uint64(0x100+r))
+			peerNode := &rnode{name: "x", id: &m.Address{PublicAddress: m.PublicAddress{IP: p}}}
+			l1 := &hlink{from: R, to: peerNode, label: 7, latency: 5, started: time.Now()}
+			l2 := &hlink{from: R, to: peerNode, label: 7, latency: 5, started: time.Now()}
+			start := make(chan struct{})
+			errs := make(chan error, 2)
+			for _, l := range []*hlink{l1, l2} {
+				l := l
+				go func() { <-start; errs <- R.pe.AddLink(l) }()
+			}
+			close(start)
+			e1, e2 := <-errs, <-errs
+			c.Eval()
+			okCount := 0
+			if e1 == nil {
+				okCount++
+			}
+			if e2 == nil {
+				okCount++
+			}
+			if okCount != 1 {
+				c.Violate(fmt.Sprintf("two links to one peer were handed to the registry at the same moment and %d of them were registered", okCount), "concurrent-addlink", map[string]any{"round": r})
+				break
+			}
+			// the refused one is closed (RemoveLink of a refused link), then the registered one
+			for _, l := range []*hlink{l1, l2} {
+				if R.pe.GetLink(p) != l {
+					R.pe.RemoveLink(l)
+				}
+			}
+			var live []peering.Link
+			live = append(live, R.pe.GetLinks()...)
+			checkRegistry(c, R, snapRegistry(R, []m.SwitchLabel{7}), live, "concurrent-addlink")
+			if l := R.pe.GetLink(p); l != nil {
+				R.pe.RemoveLink(l)
+			}
+		}
+		c.Count("concurrent-addlink-rounds")
+	}
+
 	// ---------- an announcement still queued when its link goes away ----------
 	for rep := 0; rep < c.Pick(6, 40); rep++ {
 		e, err := newCtlEnv(c, false)
